@@ -19,6 +19,43 @@ C_BYTES = 256 * 1024
 D_BYTES = 64
 
 
+# copying: bytes copied out of the input (and out of anything sliced from it) <= E + F * (same); counted with a bytes subclass
+# whose slices are counted and are counting themselves, so the measure is deterministic (no wall clock)
+E_COPY = 2048
+F_COPY = 8
+
+
+class CountingBytes(bytes):
+    __slots__ = ()
+
+    def __getitem__(self, key):
+        out = bytes.__getitem__(self, key)
+        if isinstance(key, slice):
+            _state["copied"] = _state.get("copied", 0) + len(out)
+            return CountingBytes(out)
+        return out
+
+
+def copied(idx, data):
+    """-> (bytes copied by slicing while decoding `data`, outcome) with outcome = 'value' | exception type name"""
+    global _DECS
+    install()
+    if _DECS is None:
+        _DECS = decoders()
+    name, fn = _DECS[idx % len(_DECS)]
+    st = _state
+    st["copied"] = 0
+    st["decompressed"] = 0
+    st["n"] = 0
+    st["limit"] = 1 << 62
+    out = "value"
+    try:
+        fn(CountingBytes(data))
+    except Exception as e:  # noqa
+        out = type(e).__name__
+    return st["copied"], st["decompressed"], out
+
+
 def install():
     if _state["installed"]:
         return
@@ -54,6 +91,8 @@ def install():
         out = orig(payload)
         st["decompressed"] += len(out)
         st["limit"] += B_LINES * len(out)
+        if isinstance(payload, CountingBytes) and type(out) is bytes:
+            out = CountingBytes(out)
         return out
 
     kc.gzip_decode = counting_gzip_decode
